@@ -11,6 +11,8 @@ CONSTANTS
   CRProg <- C_CR
   Forms = {"fresh"}
   Colls = {}
+  LAs <- NoLA_C
+  DropOn = FALSE
   QuitOn = FALSE
   QuitDeferred = FALSE
   DefCap = 0
